@@ -5,23 +5,23 @@ From SV Require Import C10.Hungarian C10.HungarianSpec C10.HungarianMatching C10
 Import ListNotations.
 Local Open Scope Z_scope.
 
-Lemma matching_lemma : forall M minimize, has_cols M = true ->
+Lemma matching_lemma : forall M minimize,
   exists a c, solve M minimize = Some (a, c) /\ matching_spec M a.
 Proof.
-  intros M mz H. destruct (solve_shape M mz H) as (a & E & Hm). exists a, (cost_of M a). split; assumption.
+  intros M mz. destruct (solve_shape M mz) as (a & E & Hm). exists a, (cost_of M a). split; assumption.
 Qed.
 
-Lemma objective_lemma : forall M minimize a c, has_cols M = true ->
+Lemma objective_lemma : forall M minimize a c,
   solve M minimize = Some (a, c) -> objective_spec M (a, c).
 Proof.
-  intros M mz a c H E. destruct (solve_shape M mz H) as (a' & E' & _).
+  intros M mz a c E. destruct (solve_shape M mz) as (a' & E' & _).
   rewrite E in E'. inversion E'; subst. reflexivity.
 Qed.
 
-(* the degenerate class excluded by has_cols: r > 0 rows of length 0 give [] instead of [-1]*r *)
-Lemma zero_cols_refuted_lemma :
+(* the behaviour before fix 05cf383 (solve_pinned): r > 0 rows of length 0 gave [] instead of [-1]*r *)
+Lemma zero_cols_pinned_refuted_lemma :
   exists M, wf M = true /\ has_cols M = false /\
-            exists a c, solve M true = Some (a, c) /\ ~ matching_spec M a.
+            exists a c, solve_pinned M true = Some (a, c) /\ ~ matching_spec M a.
 Proof.
   exists [[]; []]. split; [reflexivity|]. split; [reflexivity|].
   exists [], 0. split; [reflexivity|]. intros [Hl _ _ _]. simpl in Hl. discriminate.
@@ -39,7 +39,3 @@ Lemma max_ok_lemma : forall M m a,
   forall b, matching_spec M b -> cost_of M b <= cost_of M a.
 Proof. intros M m a Hr Ho b Hb. exact (pad_max_ok M false m a Hr Ho b Hb). Qed.
 
-(* full optimality statement (C10_optimal) *)
-Definition optimal_full_statement : Prop :=
-  forall M minimize, has_cols M = true ->
-  exists a, solve M minimize = Some (a, cost_of M a) /\ matching_spec M a /\ optimal_spec M minimize a.
